@@ -40,8 +40,10 @@ def run(rep: Report, ctx: Any) -> str:
     rep.rule("R02.2", "both directions exist for every non-identity kind: if the Python type differs from the JSON type the template "
                       "defines construct and transform; construct_function is routed through construct_template; list and union call "
                       "construct / transform of the template imported for their inner property, with that inner property")
-    rep.rule("R02.3", "plain JSON out: for non-identity kinds the value assigned on the present path is a conversion of the source, "
-                      "never the bare source")
+    rep.rule("R02.3", "plain JSON out: in every text the transform macro of a non-identity kind can print (every combination of its "
+                      "conditions; set variables and blocks, macros of this or an imported template, call blocks followed) the destination "
+                      "is assigned something else than UNSET, and no such assignment has the bare source as its value unless a later "
+                      "one converts the destination in place")
     rep.rule("R02.4", "additional properties: merged before the declared-key update; from_dict assigns the remainder of d")
     rep.rule("R02.5", "to_dict returns a fresh dict: field_dict is only ever bound to a new empty dict (internal state is copied, not aliased)")
     mt = jx.templates.get("model.py.jinja")
@@ -80,11 +82,13 @@ def run(rep: Report, ctx: Any) -> str:
                     return None
                 out |= a_
             return out
-        if isinstance(n, nodes.Filter) and n.node is not None and n.name in ("selectattr", "rejectattr", "list"):
+        if isinstance(n, nodes.Filter) and n.node is not None and (n.name in ("selectattr", "rejectattr") or n.name in _SAME_ELEMENTS or
+                                                                   _mapped_attr(n) is not None):
             inner = admitted(n.node)
-            if n.name == "list" or inner is None:
-                return inner
-            sel = len(n.args) == 1 and isinstance(n.args[0], nodes.Const) and n.args[0].value == "required" and not n.kwargs
+            if n.name not in ("selectattr", "rejectattr") or inner is None:
+                return inner       # the same properties in another order / as a list / each seen through one attribute
+            sel = len(n.args) == 1 and isinstance(n.args[0], nodes.Const) and n.args[0].value == "required" and not n.kwargs and \
+                not _mapped_path(n.node)      # (the attribute tested is the property's own)
             return inner & ({True} if n.name == "selectattr" else {False}) if sel else None
         return {REQ: {True}, OPT: {False}}.get(expr_text(n))
 
@@ -95,11 +99,12 @@ def run(rep: Report, ctx: Any) -> str:
     prop_loops = [(f, lv) for f, lv in prop_loops if any(REQ in x or OPT in x for x in lv)]
     rep.floor("property_loops", len(prop_loops), 4)
     loop_dom = {expr_text(f.iter): (admitted(f.iter) or set()) for f, lv in prop_loops}
-    pvars = {f"{t}[*]" for t in loop_dom}
+    # the variable of a loop over the properties stands for the property <p>; of a loop over `PROPS | map(attribute="a")` for <p>.a
+    pvars = {f"{expr_text(f.iter)}[*]": "<p>" + "".join(f".{a}" for a in _mapped_path(_inline(f.iter, mdefs))) for f, lv in prop_loops}
 
     def strip_pv(t: str) -> str:
         for v in sorted(pvars, key=len, reverse=True):
-            t = t.replace(v, "<p>")
+            t = t.replace(v, pvars[v])
         while "(<p>)" in t:      # a set variable that stands for the loop variable reads as its parenthesised definition
             t = t.replace("(<p>)", "<p>")
         return t
@@ -197,7 +202,7 @@ def run(rep: Report, ctx: Any) -> str:
         aliases = sorted({i.target for i in f.find_all(nodes.Import)}, key=len, reverse=True)
 
         def anon(t: str, own: str = f"{expr_text(f.iter)}[*]", aliases: list[str] = aliases) -> str:
-            t = t.replace(own, "<p>")
+            t = t.replace(own, pvars[own])
             for a in aliases:
                 t = re.sub(rf"(?<![\w.]){re.escape(a)}(?![\w(])", "<tpl>", t)
             return _strip_parens(t)
@@ -300,7 +305,7 @@ def run(rep: Report, ctx: Any) -> str:
                       lhs=[v[:60] for v in vals], rhs="d.pop(\"<property.name>\"...)")
 
     # ---- R02.2 / R02.3 ----------------------------------------------------------------------------------------------------
-    n_k = 0
+    n_k = n_conv = 0
     proto = ix.cls("PropertyProtocol")
     for c in ix.property_classes():
         tname = ix.const_str(*_cv(ix, c, "template")) or ""
@@ -325,22 +330,17 @@ def run(rep: Report, ctx: Any) -> str:
                       f"construct={has_c}, transform={has_t}: the missing direction silently becomes the identity", where=f"{PKG}/templates/{ti.name}",
                       lhs=[has_c, has_t], rhs=[True, True])
             if has_t and c.name not in ("UnionProperty", "ListProperty"):
-                # what is assigned to the destination: the expression emitted right after `<destination> = ` (a canonical set variable
-                # reads as the text of its definition)
-                tf = list(tplq.macro_frags(ti, "transform"))
-                sets = sorted({tf[i + 2].text for i in range(len(tf) - 2) if tf[i].kind == "expr" and tf[i].text == "destination"
-                               and tf[i + 1].kind == "data" and tf[i + 1].text.strip() == "=" and tf[i + 2].kind == "expr"})
-                data = "".join(f.text for f in tf if f.kind == "data")
-                converts = any(s not in ("source", "(source)") for s in sets) or bool(re.search(r"\}\}?\.\w+\(", data)) or ".to_tuple()" in data or ".value" in "".join(sets)
-                rep.check(converts, "R02.3", f"{c.name}::transform-converts", "transform assigns the bare source: a rich Python object would be "
-                          "emitted as JSON", where=f"{PKG}/templates/{ti.name}", lhs=sets, rhs="a conversion of the source")
+                n_conv += 1
+                _transform_converts(rep, jx, ti, c.name)
         if "construct_function" in ti.macros:
-            cons = ti.macros.get("construct")
-            routed = cons is not None and any(isinstance(c2, nodes.Call) and expr_text(c2.node) == "construct_template" and c2.args and
-                                              expr_text(c2.args[0]) == "construct_function" for c2 in cons.find_all(nodes.Call))
+            # (anywhere in construct and the macros of the template it calls; the function handed over by position or by keyword)
+            routed = any(isinstance(c2, nodes.Call) and expr_text(c2.node).rsplit(".", 1)[-1] == "construct_template" and
+                         "construct_function" in [expr_text(a) for a in [*c2.args[:1], *[k.value for k in c2.kwargs]]]
+                         for m2 in _macro_region(ti, "construct") for c2 in m2.find_all(nodes.Call))
             rep.check(routed, "R02.2", f"{c.name}::construct-routed", "construct does not go through construct_template(construct_function, ...)",
                       where=f"{PKG}/templates/{ti.name}", lhs=None, rhs="construct_template(construct_function, property, source)")
     rep.floor("property_kinds", n_k, 8)
+    rep.floor("converting_kinds", n_conv, 3)
     # list / union delegate to the inner template in both directions: reachable from construct (transform) there is a call
     # ALIAS.construct(X, ...) (ALIAS.transform(X, ...)) where ALIAS is the import of "property_templates/" + X.template and X is the
     # inner property (property.inner_property / an element of property.inner_properties); the alias and X may be spelled anyhow
@@ -427,11 +427,338 @@ def run(rep: Report, ctx: Any) -> str:
                       "classes that the emitted decode/encode code names are imported lazily); a kind that forwards get_imports to its inner "
                       "properties forwards get_lazy_imports too")
     _imports_parity(rep, ix)
+    rep.rule("R02.11", "the parsed document is not rewritten behind the builders' back: every in-place write to a field of a document object "
+                       "(a class of the package that defines Schema; receiver found by its abstract type, wherever the write is made: "
+                       "attribute store, mutating call on the field or an alias of it, setattr, the result of a pydantic validator) is one "
+                       "of the writes frozen in DOCUMENT_WRITERS - the fields that say which values are valid (enum, const, properties, "
+                       "required, items, ...) reach the builders as the document wrote them")
+    _document_frame(rep, ix, it)
+    rep.rule("R02.12", "a model drops only its own import from its import sets: wherever a function of ModelProperty's module tests an import "
+                       "line (an element of an iterated collection) against, or removes from a collection, a text made from the model's own "
+                       "class_info, that text names the import in full - it contains everything get_lazy_imports writes from the model "
+                       "(module name, class name and the text between them), however either text is put together (f-string, +, local, "
+                       "property)")
+    _own_import_named_in_full(rep, ix, it)
     rep.not_decided += ["that construct(transform(x)) == x on values (isoparse(x.isoformat()), which of two overlapping union members accepts a "
                         "value, recursion)", "a union member without a type check (const) is decoded in terminal form wherever it stands",
                         "the direction of a loop that walks a member list by a computed index or position (taken to run forwards); in which order "
                         "the parts of a union (anyOf, oneOf, type list) follow each other"]
     return LEVEL
+
+
+# ---- R02.3 ---------------------------------------------------------------------------------------------------------------------
+def _transform_converts(rep: Report, jx: Any, ti: Any, kind: str) -> None:
+    """The statements `<destination> ... = <value>` in the texts of the kind's transform macro.  `source` and `destination` are the
+    macro's parameters (model.py.jinja passes them by keyword); everything else is read off the text, however it is assembled."""
+    m = ti.macros["transform"]
+    loc = f"{PKG}/templates/{ti.name}"
+    params = {a.name for a in m.args}
+    rep.require({"source", "destination"} <= params, f"{ti.name}::transform takes source and destination")
+    texts = _Texts(ti, jx)
+    alts = texts.body(m.body, 0, texts.scope_defs(m.body))
+    bare: list[str] = []
+    none: list[str] = []
+    hidden: list[str] = []
+    n_alt = 0
+    for a in alts:
+        fr = _Stmt("stmt", "transform", m.lineno, a.guards, a.gnodes, (), m)
+        env = next(iter(_emitted_envs(fr, _strip_parens)), None)
+        if env is None:
+            continue       # contradictory conditions: never printed
+        n_alt += 1
+        txt, holes = texts.render(a)
+        dst = {k for k, h in enumerate(holes) if h == "destination"}
+        src = {k for k, h in enumerate(holes) if h == "source"}
+
+        def show(t: str, holes: list[str] = holes) -> str:
+            return re.sub(r"\x00(\d+)\x01", lambda h: f"<{holes[int(h.group(1))]}>", t).strip()
+
+        vals: list[tuple[str, str]] = []      # (statement, value) of the assignments to the destination, in output order
+        for mt_ in re.finditer(r"(?m)^[ \t]*\x00(\d+)\x01[^=\n]*(?<![=!<>+\-*/%&|^])=(?!=)[ \t]*", txt):
+            if int(mt_.group(1)) not in dst:
+                continue
+            end = _value_end(txt, mt_.end())
+            vals.append((txt[mt_.start():end], txt[mt_.end():end].strip()))
+        present = [(st, v) for st, v in vals if v != "UNSET"]
+        when = ", ".join(f"{k}={v}" for k, v in sorted(env.items())) or "always"
+        if not present:
+            opaque = [p_[1] for p_ in a.parts if not isinstance(p_, str) and not isinstance(p_[0], (nodes.Name, nodes.Getattr))]
+            (hidden if opaque else none).append(f"[{when}] {show(txt)[:160]!r}")
+            continue
+        for i, (st, v) in enumerate(present):
+            one = re.fullmatch(r"\x00(\d+)\x01", _strip_parens(v).strip())
+            if one is None or int(one.group(1)) not in src:
+                continue
+            # converted in place afterwards: a later assignment whose value is made from the destination
+            if any(any(f"\x00{k}\x01" in v2 for k in dst) and re.fullmatch(r"\x00(\d+)\x01", _strip_parens(v2).strip()) is None
+                   for _, v2 in present[i + 1:]):
+                continue
+            bare.append(f"[{when}] {show(st)}")
+    rep.require(n_alt > 0, f"a text that {ti.name}::transform prints")
+    rep.require(not hidden, f"the assignment of the destination in {ti.name}::transform (printed by something that is not followed: {hidden[:2]})")
+    rep.check(not bare and not none, "R02.3", f"{kind}::transform-converts",
+              ("transform assigns the bare source: a rich Python object would be emitted as JSON" if bare else
+               "transform prints a text in which the destination is never assigned a value of the source"),
+              where=loc, lhs=(bare or none)[:3], rhs="<destination> = a conversion of <source>, under every condition")
+
+
+def _value_end(t: str, i: int) -> int:
+    """end of the expression that starts at t[i]: the end of the line on which every bracket opened since is closed"""
+    depth, q, j = 0, "", i
+    while j < len(t):
+        ch = t[j]
+        if q:
+            if ch == "\\":
+                j += 1
+            elif ch == q:
+                q = ""
+        elif ch in "\"'":
+            q = ch
+        elif ch in "([{":
+            depth += 1
+        elif ch in ")]}":
+            depth -= 1
+        elif ch == "\n" and depth <= 0:
+            return j
+        j += 1
+    return len(t)
+
+
+# ---- R02.11 --------------------------------------------------------------------------------------------------------------------
+# Who may write the parsed document in place.  role: `normaliser` = a pydantic validator of a document class (with its helpers) writing
+# the object it validates, `builder` = any other function.  value: `*` anything, `None` only the constant None.
+# role          class     field               value   why this write loses no valid instance
+DOCUMENT_WRITERS: tuple[tuple[str, str, str, str, str], ...] = (
+    ("normaliser", "Schema", "exclusiveMinimum", "*", "3.0 spells an exclusive bound as a flag next to minimum, 3.1 as the number itself: same bound, one spelling"),
+    ("normaliser", "Schema", "minimum", "*", "cleared when the bound moved to exclusiveMinimum (same bound)"),
+    ("normaliser", "Schema", "exclusiveMaximum", "*", "as exclusiveMinimum"),
+    ("normaliser", "Schema", "maximum", "*", "as minimum"),
+    ("normaliser", "Schema", "type", "*", "3.0 `nullable: true` respelled as the 3.1 type list: the null type is added, nothing is taken away"),
+    ("normaliser", "Schema", "oneOf", "*", "`nullable: true` on a composition: a null member is added"),
+    ("normaliser", "Schema", "anyOf", "*", "`nullable: true` on a composition: a null member is added"),
+    ("normaliser", "Schema", "allOf", "*", "nullable allOf becomes oneOf[null, allOf]: the allOf list moves into the new member"),
+    ("builder", "Schema", "oneOf", "*", "an enum with a null among its values is re-dispatched as a union of null and (a copy holding) the other values"),
+    ("builder", "Schema", "enum", "None", "cleared after its values were handed to the copy inside oneOf, so that the re-dispatch sees a union"),
+)
+_MUTATORS = {"append", "extend", "insert", "remove", "pop", "clear", "update", "add", "discard", "sort", "reverse", "setdefault", "popitem",
+             "appendleft", "extendleft", "popleft", "difference_update", "intersection_update", "symmetric_difference_update"}
+_VALIDATOR_DECORATORS = {"model_validator", "field_validator", "validator", "root_validator"}
+
+
+def _document_frame(rep: Report, ix: Any, it: Any) -> None:
+    schema = ix.cls("Schema")
+    rep.require(schema, "class Schema")
+    pkg = schema.module.name.rsplit(".", 1)[0]
+    doc = {c.qual: c for c in ix.classes.values() if c.module.name == pkg or c.module.name.startswith(pkg + ".")}
+
+    def doc_classes(e: ast.AST) -> list[Any]:
+        av = it.node_av.get(id(e))
+        return [doc[t] for t in sorted(getattr(av, "types", ()) or ()) if t in doc]
+
+    def deco(f: Any) -> list[tuple[str, ast.expr]]:
+        return [((call_name(d) if isinstance(d, ast.Call) else norm(d)).rsplit(".", 1)[-1], d) for d in f.node.decorator_list]
+
+    validators = [f for f in ix.all_functions if f.cls is not None and f.cls.qual in doc and any(n in _VALIDATOR_DECORATORS for n, _ in deco(f))]
+    normalising: dict[str, Any] = {}
+    for v in validators:
+        for g in region(ix, v):
+            normalising.setdefault(g.qual, v)
+    found: dict[tuple[str, str, str], list[tuple[str, str]]] = {}      # (role, class, field) -> [(where, value)]
+
+    def note(f: Any, at: ast.AST, recv: ast.AST, fld: str, value: str) -> None:
+        role = "normaliser" if f.qual in normalising else "builder"
+        for c in doc_classes(recv):
+            found.setdefault((role, c.name, fld), []).append((where(f, at), value))
+
+    def fields_of(e: ast.AST | None, loc: Locals, depth: int = 0) -> list[tuple[ast.AST, str]]:
+        """(document object, field) for every field of a document object that e may be: the field itself, an item of it, a local bound
+        to it (directly, as one of a display that is unpacked / iterated, or on one branch of a conditional)"""
+        if isinstance(e, ast.Attribute) and doc_classes(e.value):
+            return [(e.value, e.attr)]
+        if isinstance(e, (ast.Subscript, ast.NamedExpr)):
+            return fields_of(e.value, loc, depth)
+        if isinstance(e, ast.IfExp):
+            return fields_of(e.body, loc, depth) + fields_of(e.orelse, loc, depth)
+        if isinstance(e, ast.BoolOp):
+            return [x for v in e.values for x in fields_of(v, loc, depth)]
+        if isinstance(e, ast.Name) and depth < 3:
+            out: list[tuple[ast.AST, str]] = []
+            for kind, _, v in loc.defs.get(e.id, []):
+                # (a display is a container of its own: only what is taken out of it again - by a loop or by unpacking - is the field)
+                taken = kind.startswith("for") or "[" in kind
+                for v1 in (v.elts if taken and isinstance(v, (ast.Tuple, ast.List)) else [] if isinstance(v, (ast.Tuple, ast.List)) else [v]):
+                    if not isinstance(v1, ast.Starred):
+                        out += fields_of(v1, loc, depth + 1)
+            return out
+        return []
+
+    for f in ix.all_functions:
+        loc = Locals(f.node)
+        for x in _own(f.node):
+            targets: list[tuple[ast.AST, str]] = []
+            if isinstance(x, ast.Assign):
+                targets = [(t, "None" if isinstance(x.value, ast.Constant) and x.value.value is None else norm(x.value)) for t in x.targets]
+            elif isinstance(x, (ast.AugAssign, ast.AnnAssign)) and (isinstance(x, ast.AugAssign) or x.value is not None):
+                targets = [(x.target, "None" if isinstance(x.value, ast.Constant) and x.value.value is None else norm(x.value))]
+            elif isinstance(x, ast.Delete):
+                targets = [(t, "<del>") for t in x.targets]
+            for t, val in targets:
+                for t1 in (t.elts if isinstance(t, (ast.Tuple, ast.List)) else [t]):
+                    if isinstance(t1, ast.Attribute) and doc_classes(t1.value):
+                        note(f, x, t1.value, t1.attr, val if t1 is t else "<unpacked>")
+                    elif isinstance(t1, ast.Subscript):
+                        for obj, fl in fields_of(t1.value, loc):
+                            note(f, x, obj, fl, "<item>")
+            if not isinstance(x, ast.Call):
+                continue
+            fn = x.func
+            if isinstance(fn, ast.Attribute) and fn.attr in _MUTATORS:
+                for obj, fl in fields_of(fn.value, loc):
+                    note(f, x, obj, fl, f".{fn.attr}()")
+            cn = call_name(x).rsplit(".", 1)[-1]
+            if cn in ("setattr", "__setattr__", "delattr", "__delattr__"):
+                args = x.args[1:] if cn.startswith("__") and isinstance(fn, ast.Attribute) and norm(fn.value) == "object" else x.args
+                if len(args) >= (1 if "del" in cn else 2) and doc_classes(args[0]):
+                    nm = args[1] if len(args) > 1 else None
+                    note(f, x, args[0], nm.value if isinstance(nm, ast.Constant) and isinstance(nm.value, str) else "<computed>",
+                         "None" if len(args) > 2 and isinstance(args[2], ast.Constant) and args[2].value is None else "<set>")
+    # what a validator hands back is what the document holds afterwards: a model validator returns the object it was given (or a copy
+    # with named fields replaced: those are written), a field validator the value it was given (otherwise it writes its fields)
+    for v in validators:
+        names = dict(deco(v))
+        params = [a.arg for a in v.params]
+        own = params[1] if len(params) > 1 and v.kind in ("classmethod", "method") and params[0] in ("cls", "self") else params[0] if params else None
+        if v.kind in ("method", "function") and params and params[0] == "self":
+            own = "self"
+        d = names.get("field_validator") or names.get("validator")
+        fields = [a.value for a in d.args if isinstance(a, ast.Constant) and isinstance(a.value, str)] if isinstance(d, ast.Call) else []
+        for r in _own(v.node):
+            if not isinstance(r, ast.Return) or (isinstance(r.value, ast.Name) and r.value.id == own):
+                continue
+            val = r.value
+            if fields:
+                for fl in fields:
+                    found.setdefault(("normaliser", v.cls.name, fl), []).append((where(v, r), norm(val) if val is not None else "None"))
+                continue
+            upd = next((k.value for k in val.keywords if k.arg == "update"), None) if isinstance(val, ast.Call) and call_name(val).endswith("model_copy") else None
+            rep.require(isinstance(upd, ast.Dict) and all(isinstance(k, ast.Constant) and isinstance(k.value, str) for k in upd.keys),
+                        f"what the validator {short(v)} returns ({where(v, r)}): the object it validates, or a model_copy(update={{...}}) of it")
+            for k, vv in zip(upd.keys, upd.values):
+                found.setdefault(("normaliser", v.cls.name, k.value), []).append((where(v, r), "None" if isinstance(vv, ast.Constant) and vv.value is None else norm(vv)))
+    rep.floor("document_validators", len(validators), 1)
+    rep.floor("document_write_kinds", len(found), 5)
+    allowed = {(r, c, fl): val for r, c, fl, val, _ in DOCUMENT_WRITERS}
+    for (role, cname, fl), sites in sorted(found.items()):
+        want = allowed.get((role, cname, fl))
+        bad = [(w, v) for w, v in sites if want is None or (want != "*" and v != want)]
+        rep.check(not bad, "R02.11", f"{role}::{cname}.{fl}",
+                  f"the field `{fl}` of the parsed document ({cname}) is rewritten in place by a {role}" +
+                  (" that is not among the frozen writers" if want is None else f" with another value than {want}") +
+                  ": the builders no longer see what the document said, so a value the schema allows (or the way it is to be decoded) can be lost",
+                  where=bad[0][0] if bad else sites[0][0], lhs=[f"{w}: {v[:60]}" for w, v in bad[:3]], rhs="one of DOCUMENT_WRITERS")
+
+
+# ---- R02.12 --------------------------------------------------------------------------------------------------------------------
+_STR_TESTS = {"startswith", "endswith", "find", "rfind", "index", "count", "__contains__", "removeprefix", "removesuffix"}
+_REMOVALS = {"discard", "remove", "difference", "difference_update"}
+
+
+def _own_import_named_in_full(rep: Report, ix: Any, it: Any) -> None:
+    mp = ix.cls("ModelProperty")
+    prod = mp.methods.get("get_lazy_imports")
+    rep.require(prod, "ModelProperty.get_lazy_imports")
+    locs: dict[str, Locals] = {}
+    used: set[str] = {prod.qual}
+
+    def is_model(f: Any, e: ast.AST) -> bool:
+        if isinstance(e, ast.Name) and f.cls is not None and mp in ix.mro(f.cls) and f.params and e.id == f.params[0].arg and f.kind in ("method", "property"):
+            return True
+        av = it.node_av.get(id(e))
+        return mp.qual in (getattr(av, "types", ()) or ())
+
+    def text(f: Any, e: ast.AST) -> str:
+        """the expression with a receiver that is the model written <model>"""
+        if is_model(f, e):
+            return "<model>"
+        if isinstance(e, ast.Attribute):
+            return f"{text(f, e.value)}.{e.attr}"
+        return norm(e)
+
+    def seq(f: Any, e: ast.AST | None, depth: int = 0) -> str:
+        """the text e evaluates to: literal parts as they are, every other part as {expression}"""
+        if isinstance(e, ast.Constant) and isinstance(e.value, str):
+            return e.value.replace("{", "{{")
+        if depth > 6 or e is None:
+            return "{?}"
+        if isinstance(e, ast.JoinedStr):
+            return "".join(seq(f, v.value if isinstance(v, ast.FormattedValue) and v.conversion == -1 and v.format_spec is None else v, depth + 1)
+                           for v in e.values)
+        if isinstance(e, ast.BinOp) and isinstance(e.op, ast.Add):
+            return seq(f, e.left, depth + 1) + seq(f, e.right, depth + 1)
+        if isinstance(e, ast.Name):
+            loc = locs.setdefault(f.qual, Locals(f.node))
+            ds = loc.defs.get(e.id, [])
+            if len(ds) == 1 and ds[0][0] == "assign" and ds[0][2] is not None:
+                return seq(f, ds[0][2], depth + 1)
+        if isinstance(e, ast.Attribute) and is_model(f, e.value):
+            g = next((k.methods[e.attr] for k in ix.mro(mp) if e.attr in k.methods), None)
+            if g is not None and g.kind == "property":
+                rets = [r for r in _own(g.node) if isinstance(r, ast.Return)]
+                if len(rets) == 1:
+                    used.add(g.qual)
+                    return seq(g, rets[0].value, depth + 1)
+        return "{" + text(f, e) + "}"
+
+    def model_holes(t: str) -> list[str]:
+        return re.findall(r"\{(<model>[^{}]*)\}", t)
+
+    # what the producer writes from the model: from its first part made from the model to its last
+    cores: list[str] = []
+    for r in _own(prod.node):
+        if isinstance(r, ast.Return) and r.value is not None:
+            for el in (r.value.elts if isinstance(r.value, (ast.Set, ast.List, ast.Tuple)) else [r.value]):
+                t = seq(prod, el)
+                hs = model_holes(t)
+                if hs:
+                    cores.append(t[t.index("{" + hs[0] + "}"):t.rindex("{" + hs[-1] + "}") + len(hs[-1]) + 2])
+    rep.require(cores, "the import line ModelProperty.get_lazy_imports writes from the model's class_info")
+    parts = {h for c in cores for h in model_holes(c)}
+    n = 0
+    for f in ix.all_functions:
+        if f.module is not mp.module or f.qual in used:
+            continue
+        loc = locs.setdefault(f.qual, Locals(f.node))
+        inner_params = {a.arg for x in ast.walk(f.node) if isinstance(x, ast.Lambda) for a in x.args.args}
+
+        def element(e: ast.AST, loc: Locals = loc, inner_params: set[str] = inner_params) -> bool:
+            if not isinstance(e, ast.Name):
+                return False
+            ds = loc.defs.get(e.id, [])
+            return (bool(ds) and all(k.startswith("for") for k, _, _ in ds)) or (not ds and e.id in inner_params)
+
+        for x in ast.walk(f.node):
+            groups: list[tuple[list[ast.AST], bool]] = []      # (operands, is one of them to be an element of an iterated collection)
+            if isinstance(x, ast.Compare) and all(isinstance(o, (ast.In, ast.NotIn, ast.Eq, ast.NotEq)) for o in x.ops):
+                groups.append(([x.left, *x.comparators], True))
+            elif isinstance(x, ast.Call) and isinstance(x.func, ast.Attribute) and x.func.attr in _STR_TESTS:
+                groups.append(([x.func.value, *x.args], True))
+            elif isinstance(x, ast.Call) and isinstance(x.func, ast.Attribute) and x.func.attr in _REMOVALS:
+                groups.append(([y for a in x.args for y in (a.elts if isinstance(a, (ast.Set, ast.List, ast.Tuple)) else [a])], False))
+            elif isinstance(x, ast.BinOp) and isinstance(x.op, ast.Sub) and isinstance(x.right, (ast.Set, ast.List, ast.Tuple)):
+                groups.append((list(x.right.elts), False))
+            for ops, need_el in groups:
+                if need_el and not any(element(o) for o in ops):
+                    continue
+                for o in ops:
+                    t = seq(f, o)
+                    if not (set(model_holes(t)) & parts):
+                        continue
+                    n += 1
+                    rep.check(any(c in t for c in cores), "R02.12", f"{short(f)}::own-import-named-in-full",
+                              f"import lines are tested against / removed by `{t}`, which is only a part of the model's own import "
+                              f"`{cores[0]}`: the import of another model whose module or class name merely contains this one's is dropped with "
+                              "it, and from_dict / to_dict raise NameError for a value of that model", where(f, x), lhs=t, rhs=cores)
+    rep.floor("own_import_tests", n, 1)
 
 
 # ---- R02.7 ---------------------------------------------------------------------------------------------------------------------
@@ -1023,6 +1350,30 @@ def _inline(n: Any, defs: dict[str, list[nodes.Node]], depth: int = 0) -> Any:
     return c
 
 
+_SAME_ELEMENTS = {"list", "sort", "reverse"}      # filters that hand on the elements of a sequence themselves
+
+
+def _mapped_attr(n: Any) -> str | None:
+    """`a` for the filter `| map(attribute="a")` (the elements are seen through one attribute, nothing else is done to them)"""
+    if not (isinstance(n, nodes.Filter) and n.name == "map" and not n.args and len(n.kwargs) == 1 and n.kwargs[0].key == "attribute"):
+        return None
+    v = n.kwargs[0].value
+    return v.value if isinstance(v, nodes.Const) and isinstance(v.value, str) and re.fullmatch(r"\w+(\.\w+)*", v.value) else None
+
+
+def _mapped_path(n: Any) -> list[str]:
+    """the attributes through which the elements of an iterable are seen, outermost last"""
+    out: list[str] = []
+    while isinstance(n, nodes.Filter) and n.node is not None:
+        a = _mapped_attr(n)
+        if a is not None:
+            out.insert(0, a)
+        elif n.name not in _SAME_ELEMENTS and n.name not in ("selectattr", "rejectattr"):
+            break
+        n = n.node
+    return out
+
+
 def _strip_parens(t: str) -> str:
     """`(X)` -> `X` while the outer pair encloses the whole text (a set variable reads as its parenthesised definition)"""
     while t.startswith("(") and t.endswith(")"):
@@ -1110,7 +1461,10 @@ def _bound_body(ti: Any, call: Any) -> list[nodes.Node] | None:
     """the body of the macro of this template that `call` calls, its parameters replaced by the arguments of the call"""
     if not (isinstance(call, nodes.Call) and isinstance(call.node, nodes.Name) and call.node.name in ti.macros):
         return None
-    m = ti.macros[call.node.name]
+    return _bind(ti.macros[call.node.name], call)
+
+
+def _bind(m: nodes.Macro, call: nodes.Call) -> list[nodes.Node]:
     params = [a.name for a in m.args]
     binds: dict[str, list[nodes.Node]] = {}
     for pn, d in zip(params[len(params) - len(m.defaults):], m.defaults):
@@ -1132,6 +1486,8 @@ class _Alt(NamedTuple):
 
 _MAX_ALTS = 64
 _EMPTY = _Alt((), (), ())
+_HOME, _CALLER = "\0home", "\0caller"
+_TEXT_KEEPING_FILTERS = {"indent", "trim", "string"}
 Env = dict    # {canonical name of a set variable: its definitions (_Stmt)} of the called macros being looked into
 
 
@@ -1141,13 +1497,22 @@ class _Texts:
     `x|format`, `A if T else B` (T guards A, `not T` guards B), a set variable (each of its definitions, under the guards of that
     definition), a `set` block, `{% if %}` arms in a body, a call of a macro of this template (parameters replaced by arguments)."""
 
-    def __init__(self, ti: Any):
+    def __init__(self, ti: Any, jx: Any = None):
         self.ti = ti
-        self.defs: Env = {}
+        self.jx = jx      # with the index of all templates, macros imported from another template (constant name) are followed too
+        self._top: dict[str, Env] = {}
+        self.defs: Env = self.top_defs(ti)
         self._single: dict[tuple, dict[str, list[nodes.Node]]] = {}
-        for body in [ti.tree.body] + [m.body for m in ti.macros.values()]:
-            for k, v in self.scope_defs(body).items():
-                self.defs.setdefault(k, []).extend(v)
+        self._imports: dict[str, tuple[dict[str, tuple[Any, nodes.Macro]], dict[str, Any]]] = {}
+
+    def top_defs(self, ti: Any) -> Env:
+        if ti.name not in self._top:
+            d: Env = {}
+            for body in [ti.tree.body] + [m.body for m in ti.macros.values()]:
+                for k, v in self.scope_defs(body).items():
+                    d.setdefault(k, []).extend(v)
+            self._top[ti.name] = d
+        return self._top[ti.name]
 
     @staticmethod
     def scope_defs(body: list[nodes.Node] | None) -> Env:
@@ -1157,14 +1522,69 @@ class _Texts:
                 out.setdefault(st.node.target.name, []).append(st)
         return out
 
+    # the environment of a macro being looked into: its set variables by canonical name, and under keys that are no names
+    # (_HOME: the templates whose macros are being followed, innermost last; _CALLER: the body of the call block and its environment)
+    def homes(self, env: Env) -> tuple:
+        return env.get(_HOME) or (self.ti,)
+
     def lookup(self, name: str, env: Env) -> list[_Stmt]:
-        return env.get(name) or self.defs.get(name) or []
+        if name in env:
+            return env[name]
+        for ti in reversed(self.homes(env)):
+            if name in self.top_defs(ti):
+                return self.top_defs(ti)[name]
+        return []
+
+    def imports_of(self, ti: Any) -> tuple[dict[str, tuple[Any, nodes.Macro]], dict[str, Any]]:
+        """({name: (template, macro)} for `{% from "T" import m [as name] %}`, {alias: template} for `{% import "T" as alias %}`) - T constant"""
+        if ti.name not in self._imports:
+            by_name: dict[str, tuple[Any, nodes.Macro]] = {}
+            by_alias: dict[str, Any] = {}
+            if self.jx is not None:
+                for n in ti.tree.find_all((nodes.FromImport, nodes.Import)):
+                    t2 = self.jx.templates.get(n.template.value) if isinstance(n.template, nodes.Const) and isinstance(n.template.value, str) else None
+                    if t2 is None:
+                        continue
+                    if isinstance(n, nodes.Import):
+                        by_alias[n.target] = t2
+                        continue
+                    for x in n.names:
+                        orig, alias = x if isinstance(x, tuple) else (x, x)
+                        if orig in t2.macros:
+                            by_name[alias] = (t2, t2.macros[orig])
+            self._imports[ti.name] = (by_name, by_alias)
+        return self._imports[ti.name]
+
+    def called(self, call: Any, env: Env) -> tuple[list[nodes.Node], Env] | None:
+        """the body of the macro that `call` calls (parameters replaced by the arguments) and the environment to read it in: a macro
+        of the template being read, or one it imports by a constant template name"""
+        if not isinstance(call, nodes.Call):
+            return None
+        home = self.homes(env)[-1]
+        f = call.node
+        hit: tuple[Any, nodes.Macro] | None = None
+        if isinstance(f, nodes.Name):
+            hit = (home, home.macros[f.name]) if f.name in home.macros else self.imports_of(home)[0].get(f.name)
+        elif isinstance(f, nodes.Getattr) and isinstance(f.node, nodes.Name):
+            t2 = self.imports_of(home)[1].get(f.node.name)
+            hit = (t2, t2.macros[f.attr]) if t2 is not None and f.attr in t2.macros else None
+        if hit is None:
+            return None
+        mb = _bind(hit[1], call)
+        env2 = {k: v for k, v in env.items() if k != _CALLER}
+        env2.update(self.scope_defs(mb))
+        env2[_HOME] = self.homes(env) + (hit[0],) if hit[0] is not home else self.homes(env)
+        return mb, env2
 
     def hole(self, n: Any, env: Env) -> list[_Alt]:
         """a value that is not text assembled here: shown as its expression, set variables with one definition replaced by it"""
         key = tuple(sorted((k, id(v)) for k, v in env.items()))
         if key not in self._single:
-            self._single[key] = {k: [st.node.node for st in v if isinstance(st.node, nodes.Assign)] for k, v in {**self.defs, **env}.items()}
+            merged: Env = {}
+            for ti in self.homes(env):
+                merged.update(self.top_defs(ti))
+            merged.update({k: v for k, v in env.items() if k not in (_HOME, _CALLER)})
+            self._single[key] = {k: [st.node.node for st in v if isinstance(st.node, nodes.Assign)] for k, v in merged.items()}
         return [_Alt(((n, expr_text(_inline(n, self._single[key])) if isinstance(n, nodes.Node) else str(n)),), (), ())]
 
     @staticmethod
@@ -1240,10 +1660,15 @@ class _Texts:
             f = n.node
             if isinstance(f, nodes.Getattr) and f.attr == "format":
                 return self._formatted(f.node, "{", list(n.args), {k.key: k.value for k in n.kwargs}, n, depth, env)
-            mb = _bound_body(self.ti, n)
-            if mb is not None:
-                out = self.body(mb, depth + 1, {**env, **self.scope_defs(mb)})
+            if isinstance(f, nodes.Name) and f.name == "caller" and _CALLER in env and not n.args and not n.kwargs:
+                cb, cenv = env[_CALLER]       # the body of the call block, read where it was written
+                return self.body(cb, depth + 1, cenv)
+            got = self.called(n, env)
+            if got is not None:
+                out = self.body(got[0], depth + 1, got[1])
                 return self.hole(n, env) if self._opaque(out) else out
+        if isinstance(n, nodes.Filter) and n.node is not None and n.name in _TEXT_KEEPING_FILTERS and self.called(_unfiltered(n), env) is not None:
+            return self.expr(n.node, depth + 1, env)      # (layout of a macro's text: the statements it prints are the same)
         return self.hole(n, env)
 
     def body(self, body: list[nodes.Node], depth: int = 0, env: Env | None = None) -> list[_Alt]:
@@ -1263,7 +1688,13 @@ class _Texts:
                     neg, negn = neg + ((t, False),), negn + (test,)
                 arms += [_Alt(a.parts, neg + a.guards, negn + a.gnodes) for a in self.body(n.else_ or [], depth + 1, env)]
                 pieces.append(arms)
-            elif isinstance(n, (nodes.For, nodes.CallBlock, nodes.FilterBlock, nodes.Include, nodes.Block)):
+            elif isinstance(n, nodes.CallBlock):
+                got = self.called(n.call, env)
+                if got is None:
+                    pieces.append(self.hole(n, env))
+                else:        # the macro's body, `caller()` standing for the body of the block
+                    pieces.append(self.body(got[0], depth + 1, {**got[1], _CALLER: (n.body, env)}))
+            elif isinstance(n, (nodes.For, nodes.FilterBlock, nodes.Include, nodes.Block)):
                 pieces.append(self.hole(n, env))
             elif isinstance(n, (nodes.With, nodes.Scope)):
                 pieces.append(self.body(n.body, depth + 1, env))
